@@ -197,8 +197,15 @@ impl<'a> StylesheetParser<'a> for SassParser<'a> {
                 statements.push(child);
             }
 
-            let indentation = self.read_indentation()?;
-            assert_eq!(indentation, 0);
+            // Only the first statement can be indented here: anything indented
+            // beneath another statement is consumed or rejected by that statement
+            if self.read_indentation()? != 0 {
+                return Err((
+                    "Indenting at the beginning of the document is illegal.",
+                    self.toks.current_span(),
+                )
+                    .into());
+            }
         }
 
         Ok(statements)
